@@ -1,3 +1,4 @@
+import re
 from functools import cmp_to_key
 
 import clingo
@@ -24,17 +25,35 @@ class TelingoResultParser(ClingoResultParser):
             return 1
         return item1 < item2
 
+    @staticmethod
+    def _split_atoms(line: str) -> list[str]:
+        # atoms are separated by blanks; a blank inside a quoted value belongs to the value
+        atoms, current, quoted = [], '', False
+        for char in line:
+            if char == '"':
+                quoted = not quoted
+            if char == ' ' and not quoted:
+                if current:
+                    atoms.append(current)
+                current = ''
+            else:
+                current += char
+        if current:
+            atoms.append(current)
+        return atoms
+
     def parse_model(self, model: str):
         self._get_new_knowledge()
         res = ''
-        for state in model.split("State"):
+        # a state starts with the heading ' State N:' (the word may also occur inside a value)
+        for state in re.split(r'(?m)^ *State(?= \d+:)', model):
             if not state.strip():
                 continue
             state = state.splitlines()
             res += f"-- In the {state[0].strip().removesuffix(':')} state:\n"
             atoms = []
             for line in state[1:]:
-                for elem in line.split(" "):
+                for elem in self._split_atoms(line):
                     if elem:
                         elem = clingo.parse_term(elem.strip())
                         if elem.name in self.target_predicates:
